@@ -124,10 +124,49 @@ func writePersonalDatabase(dbPath string, commands []database.Command) error {
 		return fmt.Errorf("failed to marshal commands: %w", err)
 	}
 
+	// The encoder writes some multi-line strings (a leading line break, or a
+	// leading blank before a line break) in a block style that the decoder
+	// rejects or reads back changed. Never replace the notebook with such a
+	// document: everything saved earlier would become unreadable with it.
+	if err := verifyNotebookEncoding(data, commands); err != nil {
+		return fmt.Errorf("failed to encode commands faithfully: %w", err)
+	}
+
 	err = os.WriteFile(dbPath, data, 0644)
 	if err != nil {
 		return fmt.Errorf("failed to write personal database: %w", err)
 	}
 
+	return nil
+}
+
+// verifyNotebookEncoding checks that data decodes back to exactly commands.
+func verifyNotebookEncoding(data []byte, commands []database.Command) error {
+	var decoded []database.Command
+	if err := yaml.Unmarshal(data, &decoded); err != nil {
+		return fmt.Errorf("encoded notebook does not read back: %w", err)
+	}
+	if len(decoded) != len(commands) {
+		return fmt.Errorf("encoded notebook reads back as %d entries instead of %d", len(decoded), len(commands))
+	}
+	sameList := func(a, b []string) bool {
+		if len(a) != len(b) {
+			return false
+		}
+		for i := range a {
+			if a[i] != b[i] {
+				return false
+			}
+		}
+		return true
+	}
+	for i := range commands {
+		want, got := &commands[i], &decoded[i]
+		if want.Command != got.Command || want.Description != got.Description || want.Niche != got.Niche ||
+			want.Pipeline != got.Pipeline || !sameList(want.Keywords, got.Keywords) ||
+			!sameList(want.Tags, got.Tags) || !sameList(want.Platform, got.Platform) {
+			return fmt.Errorf("entry %d (%q) would not read back unchanged", i+1, want.Command)
+		}
+	}
 	return nil
 }
